@@ -71,7 +71,9 @@ func (f *WithMutexLock) Call(s *slip.Scope, args slip.List, depth int) (result s
 	d2 := depth + 1
 	forms := args[1:]
 	for i := range forms {
-		result = slip.EvalArg(s, forms, i, d2)
+		if result = slip.EvalArg(s, forms, i, d2); slip.IsExit(result) {
+			break
+		}
 	}
 	return
 }
